@@ -31,24 +31,24 @@ def wrap16 (x : Int) : Int := (x + 32768) % 65536 - 32768
 namespace Stamp
 
 /-- `NodeStamp::is_removed`: `self.0.is_negative()`. -/
-def isRemoved (s : Stamp) : Bool := decide (s < 0)
+def isRemoved (s : Int) : Bool := decide (s < 0)
 
 /-- `NodeStamp::as_removed`: `if self.0 < i16::MAX { -self.0 - 1 } else { -self.0 }`. -/
-def asRemoved (s : Stamp) : Stamp :=
+def asRemoved (s : Int) : Int :=
   if s < 32767 then wrap16 (wrap16 (-s) - 1) else wrap16 (-s)
 
 /-- `NodeStamp::reuseable`: `self.0 > i16::MIN`. -/
-def reuseable (s : Stamp) : Bool := decide (s > -32768)
+def reuseable (s : Int) : Bool := decide (s > -32768)
 
 /-- `NodeStamp::reuse`: `self.0 = -self.0`. -/
-def reuse (s : Stamp) : Stamp := wrap16 (-s)
+def reuse (s : Int) : Int := wrap16 (-s)
 
 end Stamp
 
 /-- `NodeId { index1: NonZeroUsize, stamp: NodeStamp }`; equality compares both fields. -/
 structure NodeId where
   index1 : Nat
-  stamp : Stamp
+  stamp : Int
   deriving DecidableEq, Repr, Inhabited
 
 /-- `NodeId::index0`. -/
@@ -67,7 +67,7 @@ structure Slot where
   next : Option NodeId := none
   first : Option NodeId := none
   last : Option NodeId := none
-  stamp : Stamp := 0
+  stamp : Int := 0
   data : Data
   deriving DecidableEq, Repr, Inhabited
 
